@@ -93,7 +93,7 @@ impl Report {
     }
 }
 
-use crate::exp::{Exp, Obs, satisfies};
+use crate::exp::{Exp, Obs, Unit, satisfies, satisfies_unit};
 
 impl Report {
     /// compare one scalar observation with its expectation
@@ -108,6 +108,25 @@ impl Report {
             return true;
         }
         match satisfies(exp, obs, tol, null_as_zero) {
+            Ok(d) => {
+                self.ok(fname, d);
+                true
+            },
+            Err(d) => {
+                self.mismatch(fname, fname, key, cell, &d, case);
+                false
+            },
+        }
+    }
+    /// compare one scalar observation, made on the series measured in another unit, with the
+    /// expectation multiplied by unit^degree
+    pub fn check_unit(&mut self, fname: &str, key: &str, cell: &str, exp: &Exp, obs: Obs, un: Unit, case: &Value) -> bool {
+        self.cells += 1;
+        if exp.is_any() {
+            self.skipped();
+            return true;
+        }
+        match satisfies_unit(exp, obs, un, false) {
             Ok(d) => {
                 self.ok(fname, d);
                 true
